@@ -174,6 +174,17 @@ def run(ctx):
         res.traces += 1
         if got != exp:
             res.violation(case, "displayed BPM differs from the rule", impl=str(got), expected=str(exp)); continue
+        # the three result classes present the same answer through value / min / max / range and str(): static = one number
+        # (min = max = value, no range), range = (min, max) and no value, random = nothing but '*'
+        try:
+            view = [r.value, r.min, r.max, r.range, str(r)]
+        except Exception as e:
+            res.violation(case, "a view of the displayed BPM raised", impl=core.exc_name(e)); continue
+        if got[0] == "static": ok_view = view[:4] == [r.value, r.value, r.value, None] and view[4] == str(round(r.value))
+        elif got[0] == "range": ok_view = view[0] is None and view[3] == (r.min, r.max) and view[4] == "%s:%s" % (round(r.min), round(r.max))
+        else: ok_view = view == [None, None, None, None, "*"]
+        if not ok_view:
+            res.violation(case, "value/min/max/range/str of the displayed BPM disagree with its kind", impl=str(view)); continue
         dreqs.append({"op": "source.displaybpm", "sim": src(sim), "chart": src(chart), "ignore": ignore}); dmetas.append((case, got))
     dresp = ctx.lean.eval_sharded(dreqs)
     for (case, got), m in zip(dmetas, dresp):
